@@ -498,6 +498,60 @@ def facet_args_config(h, mesh, mapkind, free=None, cls=None):
             h.equal('straight second-order class: detDG^2 == affine', d0 * d0, dr * dr)
 
 
+def oriented_boundary_config(h, mesh, cells, flip, free=None):
+    """FacetBasis over Mesh.facets_around(cells, flip): exactly the facets with one neighbour among the cells; traces are taken from
+    the cell inside (flip: outside) the set; the normal is unit, orthogonal to the facet and points OUT of the set (flip: into it)."""
+    import skfem as S
+    from checks.c03 import facet_geometry
+    with warnings.catch_warnings():
+        warnings.simplefilter('ignore')
+        m = make_mesh(h, mesh, free=free)
+        P, t = m.doflocs, np.asarray(m.t)
+        dim = P.shape[0]
+        E = np.array(cells, dtype=np.int32)
+        Eset = set(int(c) for c in cells)
+        ob = m.facets_around(E, flip=flip)
+        f2t = np.asarray(m.f2t)
+        want = sorted(f for f in range(f2t.shape[1]) if sum(1 for K in f2t[:, f] if K != -1 and int(K) in Eset) == 1)
+        h.concrete('facets_around == facets with exactly one neighbour in the set', sorted(int(f) for f in np.asarray(ob)) == want,
+                   '%s vs %s' % (sorted(int(f) for f in np.asarray(ob)), want))
+        s = h.sym('s', (dim - 1, 1), nominal=np.array([[0.3125], [0.21875]])[:dim - 1])
+        W = h.const(np.ones(1))
+        e = m.elem()
+        if flip:
+            # "traces outside the set" exist only where there IS a cell outside: facets on the outer boundary are left out (with them
+            # the library indexes cell -1 and reads an uninitialised array - unsupported use, noted in DESIGN 10.4)
+            from skfem.generic_utils import OrientedBoundary
+            keep = np.array([k for k, f in enumerate(np.asarray(ob)) if f2t[1, int(f)] != -1], dtype=np.int64)
+            if len(keep) == 0:
+                raise Skip('no facet with a cell outside the set')
+            ob = OrientedBoundary(np.asarray(ob)[keep], np.asarray(ob.ori)[keep])
+        fb = S.FacetBasis(m, e, facets=ob, quadrature=(s, W))
+        h.sample(dict(mesh=mesh, cells=list(map(int, cells)), flip=flip, facets=want))
+        n_lib = np.asarray(fb.normals)
+        for k, f in enumerate(np.asarray(fb.find)):
+            f = int(f)
+            K = int(fb.tind[k])
+            inside = [int(c) for c in f2t[:, f] if c != -1 and int(c) in Eset][0]
+            outside = [int(c) for c in f2t[:, f] if c != -1 and int(c) not in Eset]
+            if flip and not outside:
+                # an outer boundary facet has no cell outside the set: the library documents traces "outside the subdomain" only for
+                # interior facets; nothing to demand here
+                continue
+            h.concrete('facet %d: traces taken from the cell %s the set' % (f, 'outside' if flip else 'inside'),
+                       (K not in Eset) if flip else (K in Eset), 'cell %d' % K)
+            xg, T, n_own, lam = facet_geometry(h, m, f, s)
+            nv = [n_lib[d, k, 0] for d in range(dim)]
+            h.zero('facet %d: |n|^2 == 1' % f, sum(c * c for c in nv) - 1)
+            for j, Tj in enumerate(T):
+                h.zero('facet %d: n . tangent_%d == 0' % (f, j), sum(nv[d] * Tj[d] for d in range(dim)))
+            # the vertex of the INSIDE cell opposite to the facet lies on the inner side
+            fv = set(int(v) for v in np.asarray(m.facets)[:, f])
+            opp = [int(v) for v in t[:, inside] if int(v) not in fv][0]
+            sgn = sum((P[d, opp] - xg[d]) * nv[d] for d in range(dim))
+            h.valid('facet %d: normal points %s the set' % (f, 'into' if flip else 'out of'), (sgn > 0) if flip else (sgn < 0), kinds=('nlsat', 'default'))
+
+
 def build_configs(tier, seed):
     quick = tier == 'quick'
     cfgs = []
@@ -554,6 +608,12 @@ def build_configs(tier, seed):
         add('facet/quad2/iso/numeric/side=%d' % side, facet_config, mesh='quad2', mapkind='iso', free='none', side=side, numeric_s=True)
         add('facet/quad2mix/iso/numeric/side=%d' % side, facet_config, mesh='quad2mix', mapkind='iso', free='none', side=side, numeric_s=True)
         add('facet/hex2/iso/numeric/side=%d' % side, facet_config, mesh='hex2', mapkind='iso', free='none', side=side, numeric_s=True, timeout=900)
+    # ---- oriented boundaries of cell sets (Mesh.facets_around) ---------------------------------------------------------------------------
+    for mesh, cells, free in [('tri3fan', [0], None), ('tri3fan', [1, 2], None), ('tri3fan', [2], None), ('tet2', [1], [4]), ('line3perm', [1], None),
+                              ('tri4patch', [0, 2], [4])]:
+        for flip in (False, True):
+            add('oriented-boundary/%s/cells=%s/flip=%s' % (mesh, ''.join(map(str, cells)), flip), oriented_boundary_config, mesh=mesh, cells=cells,
+                flip=flip, free=free, timeout=900)
     # ---- ways of passing facets / points to the facet map ------------------------------------------------------------------------------
     for mesh, mk, free, cls in [('tri2', 'affine', None, None), ('tri2', 'iso', None, None), ('quad2', 'iso', None, None), ('tet2', 'affine', [4], None),
                                 ('tet2', 'iso', [4], None), ('tri2', 'iso', None, 'MeshTri2'), ('tet2', 'iso', 'none', 'MeshTet2'), ('line3perm', 'affine', None, None)]:
